@@ -1,6 +1,7 @@
 import RedisVerif.Model.Resp
 import RedisVerif.Lemmas.Resp
 import RedisVerif.Lemmas.Conn
+import RedisVerif.Lemmas.RespProxy
 
 /-
   C15 — RESP decoding is total, bounded, prefix-stable; replies re-decode to themselves.
@@ -662,5 +663,42 @@ theorem frames_do_not_overlap (c : Codec) (h : c = codec1 ∨ c = codec2) (env :
 
 example : (parse1 env0 ([43, 97, 13, 13, 10] ++ [58, 49, 13, 10])).out = .ok (.simple [97, 13]) 5 ∧
     (parse1 env0 [58, 55, 13, 13, 10]).out = .error .badInt := ⟨rfl, rfl⟩
+
+
+/-! ## the third reader of client frames: the shadow proxy's command-name extractor
+
+`src/bin/shadow_proxy.rs::parse_resp_command` (a bin target; its source text is compiled into the
+harness) takes the NAME of a command out of a client frame for the proxy's logs and statistics — by
+splitting the buffer at CR LF, not by decoding it. -/
+
+/-- full statement: on every frame the server's decoder accepts the proxy names the command the
+    server executes (the upper-cased first element) -/
+def C15_proxy_name_agrees : Prop :=
+  ∀ (env : Env) (data : Bytes) (v : Val) (k : Nat), 2 ≤ env.depth → Small data →
+    (parse1 env data).out = .ok v k → proxyName data = Conn.cmdName v
+
+/-- PARTIAL: for every well-formed command (an array of bulk strings, any arguments) whose NAME contains
+    no CR and whose buffer is valid UTF-8 altogether — decidable — followed by anything -/
+theorem proxy_name_agrees_partial (env : Env) (name : Bytes) (args : List Bytes) (rest : Bytes) (hd : 2 ≤ env.depth)
+    (hs : Small (Conn.encCmd (name :: args) ++ rest)) (hcr : 13 ∉ name)
+    (hu : validUtf8 (Conn.encCmd (name :: args) ++ rest) = true) :
+    (parse1 env (Conn.encCmd (name :: args) ++ rest)).out =
+      .ok (Conn.cmdFrame (name :: args)) (Conn.encCmd (name :: args)).length ∧
+    proxyName (Conn.encCmd (name :: args) ++ rest) = Conn.cmdName (Conn.cmdFrame (name :: args)) := by
+  refine ⟨Conn.parse1_frame env (name :: args) rest hd hs, ?_⟩
+  rw [proxyName_frame name args rest hcr hu]
+  rfl
+
+/-- COUNTEREXAMPLE: `*1\r\n$2\r\n\r\n\r\n` — a command whose name is CR LF: the server reads the two bytes the
+    length announces, the proxy stops at the first CR LF and logs the empty name (an observation about
+    the proxy's statistics; no reply depends on it) -/
+theorem proxy_name_counterexample : ¬ C15_proxy_name_agrees := by
+  intro h
+  have := h env0 [42, 49, 13, 10, 36, 50, 13, 10, 13, 10, 13, 10] (.array [.bulk [13, 10]]) 12 (by decide) (by decide) rfl
+  exact absurd this (by decide)
+
+/-- non-vacuity: `*2\r\n$3\r\nget\r\n$1\r\nk\r\n` → `GET`; a buffer that is not UTF-8 altogether (a binary value) → nothing -/
+example : proxyName (Conn.encCmd [[103, 101, 116], [107]]) = some [71, 69, 84] ∧
+    proxyName (Conn.encCmd [[83, 69, 84], [107], [255]]) = none ∧ proxyName [36, 49, 13, 10, 120, 13, 10] = none := by decide
 
 end RedisVerif.C15
